@@ -401,6 +401,44 @@ func gen(g *hx.Gen) {
 		emit(lim, b, randomToks(r, r.Range(3, 10), 4, 0, 2, 0))
 	}
 
+	// 8. padding: bases with a known answer plus many extra planar components (see padding.go),
+	// all relations between m and n; two blocks of which only one is non-planar
+	emitPadded := func(b built, all bool) {
+		for _, pb := range paddedVariants(r, b, all) {
+			toks := relabels(1)
+			if r.Chance(1, 3) {
+				toks = append(toks, randomToks(r, 2, 1, 0, 0, 0)...)
+			}
+			emit(lim, pb, toks)
+		}
+	}
+	for _, b := range namedGraphs() {
+		emitPadded(b, true)
+	}
+	for i := 0; i < g.Pick(25, 400); i++ {
+		kg, sets := kuratowski(r, i%2 == 0, r.Intn(4))
+		h := "K33"
+		if i%2 == 0 {
+			h = "K5"
+		}
+		emitPadded(built{g: kg, truth: 'N', certH: h, cert: sets, fam: "subdivided-" + h}, i%3 == 0)
+	}
+	for i := 0; i < g.Pick(20, 300); i++ {
+		emitPadded(hiddenKuratowski(r, r.Range(3, 12)), i%3 == 0)
+	}
+	for i := 0; i < g.Pick(20, 300); i++ {
+		h, fam := randomPlanar(r, r.Range(5, 30))
+		emitPadded(built{g: h, truth: 'P', fam: fam}, i%3 == 0)
+	}
+	for i := 0; i < g.Pick(60, 1000); i++ {
+		for _, b := range twoBlocks(r) {
+			emit(lim, b, relabels(2))
+			if i%4 == 0 {
+				emitPadded(b, false)
+			}
+		}
+	}
+
 	// 7. near the boundary: a triangulation plus one edge (non-planar, m = 3n-5 only inside one
 	// block), a triangulation minus one edge plus another, random graphs of moderate density
 	for i := 0; i < g.Pick(300, 4000); i++ {
